@@ -72,6 +72,11 @@ func inspectDirectory(f string, remainingDepth int) {
 		p := filepath.Join(f, e.Name())
 		if e.IsDir() {
 			inspectDirectory(p, remainingDepth-1)
+		} else if s, err := os.Stat(p); err != nil {
+			log.Printf("error processing file %#v: %v", p, err)
+		} else if !s.Mode().IsRegular() {
+			// FIFOs, sockets and devices would block or never end; links to directories are not followed
+			log.Printf("skipping %#v: %v", p, file.ErrNotRegularFile)
 		} else {
 			inspectFile(p)
 		}
